@@ -180,6 +180,10 @@ func TestC16_OutgoingFramesWellFormed(t *testing.T) {
 				if fin {
 					f.SetFIN()
 				}
+				if rapid.IntRange(0, 3).Draw(t, "opcodeTwice") == 0 {
+					// the caller changes its mind about the opcode: the second choice replaces the first
+					f.SetOpcode(websocket.Opcode(rapid.SampledFrom([]byte{rfc6455.OpText, rfc6455.OpBinary, rfc6455.OpClose, rfc6455.OpPing, rfc6455.OpPong, 0x0f}).Draw(t, "firstOp")))
+				}
 				if rapid.Bool().Draw(t, "namedSetter") {
 					switch op {
 					case rfc6455.OpText:
